@@ -27,7 +27,8 @@ RULE = ("exhaustive: integer series x = sorted subsets of {0..7} (2..6 points qu
         " Also: Weaver requests after random domain histories, an index cut after resampling so that working and reference span different ranges, bounds passed as 0-d / 1-element arrays (must be left untouched), documented defaults by omission."
         " Round-4 classes: infinite bounds (absolute or as ratio), flags and slice arguments positionally in the documented order, series of 1001..1800 samples."
         " Round-5 classes: negative stop (Python slice semantics), pandas Series with absolute bounds."
-        " Round-6 classes: a 'huge' kind (66 000..90 000 samples, all values different, bounds beyond sample 2**16), abscissae in narrow signed integers spanning their type with ratio bounds.")
+        " Round-6 classes: a 'huge' kind (66 000..90 000 samples, all values different, bounds beyond sample 2**16), abscissae in narrow signed integers spanning their type with ratio bounds."
+        " Round-7 classes: truncation after resampling to the same number of points (same length and ends, other grid).")
 REQUIRED_MONITORS = ["c11:truncate", "c11:weaver_truncate", "c11:slice_by_value", "c11:slice_by_index",
                      "c11:truncate_by_index"]
 ASSUMPTIONS = ["left < right; slicing values are samples of x; index bounds within 0..len (other inputs belong to C20)"]
